@@ -31,6 +31,12 @@ def run_async_case(case, watchdog_s=30.0):
                  (the sync twin dequeue_as_iterator(num_steps=k)), k = case['num_steps'][c];
                  producers are asyncio tasks or (case['prod_kind'] == 'thread') threads
                  running enqueue_from_iterator; sources are practically endless.
+    'awaitable' - case['late'][p] = None | ['yields', k] | ['sleep', seconds]: producer p hands
+                 async_enqueue_from_iterator an AWAITABLE that resolves to its source after k
+                 event-loop yields / a delay (as orchestrate does with worker.async_iter(...));
+                 case['iterables'][p]: the source is a plain async iterable (aiter() needed).
+                 Sources have return values (StopAsyncIteration('r<p>')); async consumers
+                 record the arguments of the end of stream.
   For these the log ends with a ('final', {...}) snapshot of the queue / task state.
   """
   from ml_metrics._src.utils import iter_utils
@@ -86,9 +92,60 @@ def run_async_case(case, watchdog_s=30.0):
       rec('fail', p, n)
       raise InjectedError(f'p{p}@{n}')
 
+  late = case.get('late') or [None] * P
+  iterables = case.get('iterables') or [False] * P
+
+  class Source:
+    """An async iterator with a return value, as a remote iterator has."""
+
+    def __init__(self, p):
+      self.p, self.i = p, 0
+
+    def __aiter__(self):
+      return self
+
+    async def __anext__(self):
+      p, i = self.p, self.i
+      d = delays[(p * 7 + i) % len(delays)]
+      if d:
+        await asyncio.sleep(d)
+      elif i % 4 == 3:
+        await asyncio.sleep(0)
+      if i == lens[p]:
+        raise StopAsyncIteration(f'r{p}')
+      self.i += 1
+      rec('produce', p, i)
+      return (p, i)
+
+  class SourceIterable:
+
+    def __init__(self, p):
+      self.p = p
+
+    def __aiter__(self):
+      return Source(self.p)
+
+  async def resolves_later(p, source):
+    how, v = late[p]
+    if how == 'yields':
+      for _ in range(v):
+        await asyncio.sleep(0)
+    else:
+      await asyncio.sleep(v)
+    # Registration follows in the same event-loop step. If the queue already regards the
+    # enqueueing as finished here, the producers registered so far were taken for all.
+    rec('resolved', p, bool(q.enqueue_done or q.exhausted))
+    return source
+
+  def make_source(p):
+    if scn != 'awaitable':
+      return agen(p)
+    source = SourceIterable(p) if iterables[p] else Source(p)
+    return resolves_later(p, source) if late[p] else source
+
   async def producer(p):
     try:
-      await q.async_enqueue_from_iterator(agen(p))
+      await q.async_enqueue_from_iterator(make_source(p))
       rec('prod_return', p)
     except BaseException as e:  # pylint: disable=broad-exception-caught
       rec('prod_raise', p, type(e).__name__)
@@ -132,6 +189,18 @@ def run_async_case(case, watchdog_s=30.0):
     except BaseException as e:  # pylint: disable=broad-exception-caught
       rec('end', c, 'exc', type(e).__name__)
 
+  async def aconsumer_rv(c):
+    # Like aconsumer, but keeps the arguments of the end of stream (the return values).
+    it = q.async_dequeue_as_iterator()
+    try:
+      while True:
+        v = await it.__anext__()
+        rec('recv', c, v[0], v[1])
+    except StopAsyncIteration as e:
+      rec('end', c, 'stop', tuple(e.args))
+    except BaseException as e:  # pylint: disable=broad-exception-caught
+      rec('end', c, 'exc', type(e).__name__)
+
   def sconsumer(c, mode):
     try:
       while True:
@@ -172,7 +241,8 @@ def run_async_case(case, watchdog_s=30.0):
     for c in range(C):
       m = modes[c % len(modes)]
       if m == 'async':
-        futs.append(asyncio.run_coroutine_threadsafe(aconsumer(c), loop))
+        futs.append(asyncio.run_coroutine_threadsafe(
+            aconsumer_rv(c) if scn == 'awaitable' else aconsumer(c), loop))
       elif m == 'aiter_n':
         futs.append(asyncio.run_coroutine_threadsafe(
             aconsumer_n(c, case['num_steps'][c]), loop))
@@ -226,6 +296,7 @@ def run_async_case(case, watchdog_s=30.0):
 
 MECH_CANCELLED_ENQUEUER = 'cancelled-async-enqueuer-never-unregistered'
 MECH_ASYNC_NUM_STEPS = 'async-num-steps-does-not-stop-queue'
+MECH_LATE_REGISTRATION = 'async-producer-registered-after-await-premature-end'
 
 
 def _final(log):
@@ -260,7 +331,71 @@ def classify_hang(case, log):
         and any(modes[c] == 'aiter_n' for c in full)
         and not any(modes[c] == 'iter_n' for c in full)):
       return MECH_ASYNC_NUM_STEPS
+  if scn == 'awaitable':
+    # The queue counted as done before the awaitable of a producer had resolved, every
+    # consumer was told the stream had ended; that producer's task is the one that is not
+    # done (parked in put()).
+    cut = premature_end(case, log)
+    done = fin.get('producer_tasks_done') or []
+    stuck = [p for p, d in enumerate(done) if not d]
+    if (cut and stuck and set(stuck) <= set(cut) and len(ends) == case['C']
+        and all(e[2] == 'stop' for e in ends.values())):
+      return MECH_LATE_REGISTRATION
   return f'{scn}:async-queue-hang' if scn else 'async-queue-hang'
+
+
+def premature_end(case, log):
+  """Producers given as awaitables that resolved when the queue already counted as done.
+
+  (The position of a consumer's 'end' record says nothing here: on native threads it is
+  written some time after the queue decided on the end of the stream.)
+  """
+  late = case.get('late') or []
+  if case['P'] < 2:
+    return []
+  return sorted({e[1] for e in log if e[0] == 'resolved' and e[2] and late[e[1]]})
+
+
+def analyse_awaitable(case, log):
+  """Producers given as awaitables: the fault-free oracle, with return values.
+
+  Returns (kind, detail, mechanism) triples; the key is MECH_LATE_REGISTRATION only when the
+  record shows that the queue counted as done before such a producer's awaitable resolved
+  and the finding concerns exactly those producers.
+  """
+  P, C, lens = case['P'], case['C'], case['lens']
+  out = []
+  _, got = _stream_checks(log, out)
+  out = [(k, d, f'awaitable:async-queue-{k}') for k, d in out]
+  cut = premature_end(case, log)
+
+  def key(kind, producers):
+    if cut and producers and set(producers) <= set(cut):
+      return MECH_LATE_REGISTRATION
+    return f'awaitable:async-queue-{kind}'
+
+  want = {(p, i) for p in range(P) for i in range(lens[p])}
+  if got != want:
+    lost = sorted(want - got)
+    out.append(('lost', lost[:5], key('lost', {p for p, _ in lost})))
+  ends = {e[1]: e for e in log if e[0] == 'end'}
+  for c in range(C):
+    e = ends.get(c)
+    if e is None:
+      out.append(('consumer_no_end', c, key('consumer_no_end', [])))
+    elif e[2] != 'stop':
+      out.append(('consumer_bad_end', e[1:], key('consumer_bad_end', [])))
+    else:
+      have = sorted(map(str, e[3]))
+      if have != sorted(f'r{p}' for p in range(P)):
+        missing = [p for p in range(P) if f'r{p}' not in have]
+        extra = len(have) != len(set(have)) or not set(have) <= {f'r{p}' for p in range(P)}
+        out.append(('returned_values', {'consumer': c, 'got': list(e[3])},
+                    key('returned_values', [] if extra else missing)))
+  for p in range(P):
+    if ('prod_return', p) not in log:
+      out.append(('producer_no_return', p, key('producer_no_return', [p])))
+  return out
 
 
 def _stream_checks(log, out):
